@@ -305,6 +305,8 @@ func execOp(op string) string {
 			return newDisp(common.Atoi(f[2]))
 		case "udp":
 			return newUDP()
+		case "udpl":
+			return newUDPL()
 		}
 		return "bad-op"
 	}
@@ -344,6 +346,8 @@ func execOp(op string) string {
 		return udpPersist(common.Atoi(f[1]))
 	case f[0] == "dgram" && mode == "udp":
 		return udpDgram(common.UnHex(f[1]))
+	case f[0] == "first" && mode == "udpl":
+		return udplFirst(common.UnHex(f[1]))
 	}
 	return "skip"
 }
